@@ -71,6 +71,8 @@ class ConFIG(Aggregator):
         self._pref_vector = pref_vector
 
     def forward(self, matrix: Tensor) -> Tensor:
+        self._check_is_matrix(matrix)
+        self._check_is_finite(matrix)
         weights = self.weighting(matrix)
         units = torch.nan_to_num((matrix / (matrix.norm(dim=1)).unsqueeze(1)), 0.0)
         best_direction = torch.linalg.pinv(units) @ weights
